@@ -15,14 +15,30 @@ pub struct Case {
     pub val: Val,
     pub prefill_len: usize,
     pub prefill_seed: u32,
+    /// when set, the writer first holds the 16-byte fixed part of a v2 header with these control bytes
+    /// (what the builder hands to `write_to`), followed by `prefill_len` filler bytes
+    pub head: Option<(u8, u8)>,
+}
+
+impl Case {
+    pub fn prefill(&self) -> Vec<u8> {
+        let mut p = Vec::new();
+        if let Some((vc, afp)) = self.head {
+            p.extend_from_slice(&crate::oracle::v2::SIG);
+            p.extend_from_slice(&[vc, afp, 0, 0]);
+        }
+        p.extend(fill(self.prefill_seed, self.prefill_len));
+        p
+    }
 }
 
 impl CaseIo for Case {
     fn to_json(&self) -> serde_json::Value {
-        json!({"value": self.val.to_json(), "prefill_len": self.prefill_len, "prefill_seed": self.prefill_seed})
+        json!({"value": self.val.to_json(), "prefill_len": self.prefill_len, "prefill_seed": self.prefill_seed, "prefill_head": self.head.map(|(a, b)| vec![a, b])})
     }
     fn from_json(v: &serde_json::Value) -> Option<Self> {
-        Some(Case { val: Val::from_json(v.get("value")?)?, prefill_len: v.get("prefill_len")?.as_u64()? as usize, prefill_seed: v.get("prefill_seed")?.as_u64()? as u32 })
+        let head = v.get("prefill_head").and_then(|h| h.as_array()).and_then(|a| Some((a.first()?.as_u64()? as u8, a.get(1)?.as_u64()? as u8)));
+        Some(Case { val: Val::from_json(v.get("value")?)?, prefill_len: v.get("prefill_len")?.as_u64()? as usize, prefill_seed: v.get("prefill_seed")?.as_u64()? as u32, head })
     }
     fn simpler(&self) -> Vec<Self> {
         let mut out = Vec::new();
@@ -32,6 +48,13 @@ impl CaseIo for Case {
         }
         if self.prefill_seed != 0 {
             out.push(Case { prefill_seed: 0, ..self.clone() });
+        }
+        if self.head.is_some() {
+            out.push(Case { head: None, ..self.clone() });
+        }
+        let mut v = self.val.clone();
+        if bld::shrink_val_pub(&mut v) {
+            out.push(Case { val: v, ..self.clone() });
         }
         out
     }
@@ -50,8 +73,8 @@ fn shape(c: &Case) -> String {
         Val::Tlvs { advance, .. } => if *advance > 0 { "tlvs-advanced".into() } else { "tlvs".into() },
     };
     let size = bld::ref_size(&c.val);
-    let fits = c.prefill_len + size <= LIMIT;
-    format!("{}{}{}", name, if bld::must_refuse(&c.val) { ",oversize" } else { "" }, if fits { "" } else { ",past-limit" })
+    let fits = c.prefill().len() + size <= LIMIT;
+    format!("{}{}{}{}", name, if bld::must_refuse(&c.val) { ",oversize" } else { "" }, if fits { "" } else { ",past-limit" }, if c.head.is_some() { ",after-fixed-part" } else { "" })
 }
 
 pub fn judge(c: &Case, st: &mut Stats) -> Verdict {
@@ -59,7 +82,7 @@ pub fn judge(c: &Case, st: &mut Stats) -> Verdict {
     let entry = "WriteToHeader::write_to / to_bytes";
     let enc = bld::ref_encoding(&c.val);
     let data = bld::content(&c.val);
-    let prefill = fill(c.prefill_seed, c.prefill_len);
+    let prefill = c.prefill();
     let fail = |kind: &str, exp: String, obs: String| Err(Fail::new(kind, shape(c), entry, exp, obs));
     let run = crate::engine::guard(|| {
         let mut w = Writer::from(prefill.clone());
@@ -97,7 +120,7 @@ pub fn judge(c: &Case, st: &mut Stats) -> Verdict {
         Some(e) => {
             let mut want = prefill.clone();
             want.extend_from_slice(&e);
-            if c.prefill_len + e.len() <= LIMIT {
+            if prefill.len() + e.len() <= LIMIT {
                 if r != Ok(e.len()) || out != want {
                     return fail(
                         "append",
@@ -146,7 +169,7 @@ pub fn gen_case(t: &mut Tape) -> Case {
     let size = bld::ref_size(&val);
     let (prefill_len, prefill_seed) = match t.weighted(&[3, 4, 3, 1]) {
         0 => (0, 0),
-        1 => (t.usize_in(0, 64), t.u32()),
+        1 => (t.usize_in(0, 64), crate::engine::gen_seed(t)),
         2 => {
             // land prefill + encoding on the limit and just around it
             let delta = t.usize_in(0, 6) as i64 - 3;
@@ -155,7 +178,17 @@ pub fn gen_case(t: &mut Tape) -> Case {
         }
         _ => (t.usize_in(65_000, 65_560), t.u32()),
     };
-    Case { val, prefill_len, prefill_seed }
+    // one case in five: the writer holds the fixed part of a v2 header (any control bytes, mostly valid ones),
+    // alone or followed by filler - the state in which the builder hands its buffer to `write_to`
+    let head = if t.chance(1, 5) {
+        let vc = if t.chance(3, 4) { 0x20 | t.below(2) as u8 } else { t.byte() };
+        let afp = if t.chance(3, 4) { ((t.below(4) as u8) << 4) | t.below(3) as u8 } else { t.byte() };
+        Some((vc, afp))
+    } else {
+        None
+    };
+    let prefill_len = if head.is_some() && t.coin() { *t.pick(&[0usize, 0, 12, 36, 216, 1]) } else if head.is_some() { prefill_len.saturating_sub(16) } else { prefill_len };
+    Case { val, prefill_len, prefill_seed, head }
 }
 
 pub fn run(r: &mut Runner) -> &'static str {
@@ -177,26 +210,26 @@ pub fn run(r: &mut Runner) -> &'static str {
             let mask = if w == 16 { u128::MAX } else { (1u128 << (8 * w)) - 1 };
             for image in [0u128, 1, mask, mask >> 1, (mask >> 1) + 1, 0x0102030405060708090a0b0c0d0e0f10 & mask, 0x80 & mask, 0xff00 & mask] {
                 for prefill_len in [0usize, 5] {
-                    cases.push(Case { val: Val::Int { ty, image }, prefill_len, prefill_seed: 9 });
+                    cases.push(Case { val: Val::Int { ty, image }, prefill_len, prefill_seed: 9, head: None });
                 }
             }
         }
         for ty in 0..12 {
-            cases.push(Case { val: Val::Type(ty), prefill_len: 3, prefill_seed: 1 });
+            cases.push(Case { val: Val::Type(ty), prefill_len: 3, prefill_seed: 1, head: None });
             for len in [0usize, 1, 255, 256, 65535, 65536] {
-                cases.push(Case { val: Val::TupleType { ty, len, seed: 5 }, prefill_len: 0, prefill_seed: 0 });
+                cases.push(Case { val: Val::TupleType { ty, len, seed: 5 }, prefill_len: 0, prefill_seed: 0, head: None });
             }
         }
         for kind in 0..=255u8 {
             for len in [0usize, 2, 300] {
-                cases.push(Case { val: Val::Tlv { kind, len, seed: kind as u32 + 1 }, prefill_len: 1, prefill_seed: 2 });
-                cases.push(Case { val: Val::TupleU8 { kind, len, seed: kind as u32 + 1 }, prefill_len: 1, prefill_seed: 2 });
+                cases.push(Case { val: Val::Tlv { kind, len, seed: kind as u32 + 1 }, prefill_len: 1, prefill_seed: 2, head: None });
+                cases.push(Case { val: Val::TupleU8 { kind, len, seed: kind as u32 + 1 }, prefill_len: 1, prefill_seed: 2, head: None });
             }
         }
         for len in [65534usize, 65535, 65536, 65537, 70000] {
             for v in [Val::Bytes { len, seed: 3 }, Val::Tlv { kind: 7, len, seed: 3 }, Val::TupleU8 { kind: 7, len, seed: 3 }, Val::Section { len, seed: 3 }] {
                 for prefill_len in [0usize, 10, 16] {
-                    cases.push(Case { val: v.clone(), prefill_len, prefill_seed: 4 });
+                    cases.push(Case { val: v.clone(), prefill_len, prefill_seed: 4, head: None });
                 }
             }
         }
@@ -208,5 +241,60 @@ pub fn run(r: &mut Runner) -> &'static str {
         None
     };
     r.bulk("c20.sweep", Some("12 integer types x 8 extreme images x 2 prefills; 12 Type codes x 6 lengths; 256 TLV kind bytes x 3 lengths x 2 spellings; size boundaries 65534..70000 x 4 kinds x 3 prefills"), &work, &judge);
+    // every value length in a contiguous range, for each kind that carries a length
+    let top: usize = if r.quick() { 2200 } else { 65_537 };
+    let lens = |shard: usize, nshards: usize, st: &mut Stats, stop: &AtomicBool| -> Option<(Case, Fail)> {
+        let mut len = shard;
+        while len <= top {
+            if stop.load(std::sync::atomic::Ordering::Relaxed) {
+                return None;
+            }
+            let seed = if len % 5 == 0 { 0 } else { len as u32 * 2 + 1 };
+            for v in [
+                Val::Bytes { len, seed },
+                Val::Tlv { kind: (len % 251) as u8, len, seed },
+                Val::TupleU8 { kind: (len % 253) as u8, len, seed },
+                Val::TupleType { ty: len % 12, len, seed },
+                Val::Section { len, seed },
+            ] {
+                for (prefill_len, head) in [(0usize, None), (len % 7, Some((0x21u8, 0x11u8)))] {
+                    let c = Case { val: v.clone(), prefill_len, prefill_seed: 7, head };
+                    if let Err(f) = judge(&c, st) {
+                        return Some((c, f));
+                    }
+                }
+            }
+            len += nshards;
+        }
+        None
+    };
+    let lspace = format!("every value length 0..={} for [u8], TypeLengthValue, (u8,&[u8]), (Type,&[u8]) and TypeLengthValues, into an empty writer and into one holding a header's fixed part", top);
+    r.bulk("c20.lengths", Some(&lspace), &lens, &judge);
+    // address blocks of each family into a writer that holds exactly a fixed part with every family/protocol byte
+    let heads = |shard: usize, _n: usize, st: &mut Stats, _stop: &AtomicBool| -> Option<(Case, Fail)> {
+        if shard != 0 {
+            return None;
+        }
+        let addrs = [
+            crate::oracle::v2::RefAddr2::Unspec,
+            crate::oracle::v2::RefAddr2::V4 { src: [1, 2, 3, 4], dst: [5, 6, 7, 8], sport: 9, dport: 10 },
+            crate::oracle::v2::RefAddr2::V6 { src: 1, dst: 2, sport: 3, dport: 4 },
+            crate::oracle::v2::RefAddr2::Unix { src: vec![b'a'; 108], dst: vec![b'b'; 108] },
+        ];
+        for afp in 0..=255u8 {
+            for vc in [0x20u8, 0x21, 0x00, 0xff] {
+                for a in &addrs {
+                    for prefill_len in [0usize, 1] {
+                        let c = Case { val: Val::Addr(a.clone()), prefill_len, prefill_seed: 3, head: Some((vc, afp)) };
+                        if let Err(f) = judge(&c, st) {
+                            return Some((c, f));
+                        }
+                    }
+                }
+            }
+        }
+        None
+    };
+    r.bulk("c20.after-fixed-part", Some("address blocks of the 4 families written into a writer holding exactly a v2 fixed part (4 version/command bytes x all 256 family/protocol bytes), alone and followed by one byte"), &heads, &judge);
     "exploration"
 }
